@@ -44,6 +44,10 @@ def check(ctx):
                       max_depth=sp.max_depth, draws=draws, first_functions=first_functions)
             if model != real:
                 C.issue('grow-mismatch', 'correspondence', rp, model=model, real=real)
+            wmodel = gpops.model_grow(drv, sp, draws, sp.max_depth - sp.min_depth, cmd='w.grow')
+            if wmodel != real:
+                C.issue('translated-grow-mismatch', 'correspondence', rp, model=wmodel, real=real)
+            C.extra['translated_grow_runs'] = C.extra.get('translated_grow_runs', 0) + 1
             defects = T.wf_oracle(t, sp.n_variables, sp.n_dimensions)
             if defects:
                 C.issue('grown-tree-malformed', 'oracle', rp, defects=defects)
